@@ -46,7 +46,7 @@ def install_normalize_path_model(eng):
     def h(eng_, st, self_v, args, kwargs):
         path = args[0]
         fd = args[1] if len(args) > 1 else kwargs.get("for_display", FALSE)
-        cfg = eng_.config
+        cfg = cfg_of(eng_, st, self_v)
         pn = ""
         if isinstance(self_v, R) and "name" in st.obj(self_v).meta:
             pn = "@" + st.obj(self_v).meta["name"]
@@ -62,6 +62,24 @@ def install_normalize_path_model(eng):
             return eng_.flush(st, NONE)
         return eng_.prim(st, lambda s: mk_union(out))
     eng.handlers["cloudsync.provider:Provider.normalize_path"] = h
+
+
+def cfg_of(eng, st, self_v):
+    """the path convention of a provider object / class (from its synthetic class constants)"""
+    cref = None
+    if isinstance(self_v, R):
+        cref = B._obj_class(st.obj(self_v))
+    elif isinstance(self_v, C) and isinstance(self_v.v, ClassRef):
+        cref = self_v.v
+    if cref is not None:
+        for c in eng.mro(cref):
+            if isinstance(c.info, B.SynthInfo):
+                v = c.info.values
+                name = c.info.name
+                return {"name": name[5:-1] if name.startswith("Prov<") else name, "sep": py_of(v["sep"]),
+                        "alt_sep": py_of(v["alt_sep"]), "case_sensitive": py_of(v["case_sensitive"]),
+                        "win_paths": py_of(v["win_paths"])}
+    return eng.config
 
 
 def nps_fn(cfg):
@@ -95,7 +113,7 @@ def nps_contract_axioms(st, cfg, t):
 def install_nps_contract(eng):
     def h(eng_, st, self_v, args, kwargs):
         path = args[0] if args else kwargs["path"]
-        cfg = eng_.config
+        cfg = cfg_of(eng_, st, self_v)
         out = []
         for g, b in alts(path):
             if P.is_str(b):
@@ -103,12 +121,14 @@ def install_nps_contract(eng):
                     out.append((g, b))
                 else:
                     out.append((g, S("str", nps_contract_axioms(st, cfg, P.str_of(b)))))
-            elif isinstance(b, C) and b.v is None:
-                out.append((g, b))
+            elif isinstance(b, C) and (b.v is None or b.v is False):
+                out.append((g, b))          # `if path:` is false: returned unchanged
             else:
-                raise OutOfSubset("normalize_path_separators of %r" % (b,))
+                st.pend(g, "AttributeError", "normalize_path_separators of a non-string")
         st.note("Provider.normalize_path_separators replaced by its contract (proved by lemma nps_contract)")
-        return eng_.ok(st, mk_union(out))
+        if not out:
+            return eng_.flush(st, NONE)
+        return eng_.prim(st, lambda s_: mk_union(out))
     eng.handlers["cloudsync.provider:Provider.normalize_path_separators"] = h
 
 
@@ -127,6 +147,43 @@ def install(eng):
     from . import world
     eng.fixtures["Prov"] = fx_provider
     eng.fixtures["World"] = world.fx_world
+    eng.fixtures["CS"] = fx_cloudsync
+
+
+def _pc(cs, sep="/", alt="\\", win=False):
+    return {"name": "sep=%s,alt=%s,cs=%d,win=%d" % ({"/": "fs", "\\": "bs"}[sep], {"/": "fs", "\\": "bs", None: "none"}[alt], cs, win),
+            "sep": sep, "alt_sep": alt, "case_sensitive": cs, "win_paths": win}
+
+
+CONFIG_SETS["provider_pairs"] = []
+for _side in (0, 1):
+    for _a, _b, _nm in ((_pc(True), _pc(True), "cs-cs"), (_pc(True), _pc(False), "cs-ci"), (_pc(False), _pc(True), "ci-cs"),
+                        (_pc(False), _pc(False), "ci-ci"), (_pc(True, "\\", "/", True), _pc(True), "win-posix")):
+        CONFIG_SETS["provider_pairs"].append({"name": "%s,to=%d" % (_nm, _side), "p0": _a, "p1": _b, "side": _side})
+
+
+def fx_cloudsync(eng, st, pname):
+    """a CloudSync object with two providers (possibly of different path conventions) and two root paths"""
+    from . import world
+    cfg = eng.config
+    provs = []
+    for i in (0, 1):
+        provs.append(world.make_provider(eng, st, i, cfg["p%d" % i]))
+    r0 = S("str", z3.String("root0"))
+    r1 = S("str", z3.String("root1"))
+    ccls = world.cls(eng, "cloudsync.cs:CloudSync")
+    r = st.alloc(HObj("obj", ccls, fields={"providers": T(provs), "roots": T([r0, r1])}, meta={"tag": "cloudsync"}))
+    eng.inputs["root0"] = "str"
+    eng.inputs["root1"] = "str"
+    eng.inputs[pname] = "cloudsync:" + cfg["name"]
+    return r
 
 
 CONFIG_SETS["sides"] = [{"name": "changed=0", "changed": 0, "synced": 1}, {"name": "changed=1", "changed": 1, "synced": 0}]
+
+
+def _b_cs_side(eng, st, recv, args, kwargs):
+    return eng.ok(st, C(eng.config["side"]))
+
+
+B.BUILTIN_FUNCS["cs_side"] = _b_cs_side
